@@ -1080,6 +1080,12 @@ class ClampEval:
             return self.val(e[2], env)
         return ('opaque', P.c_text(e))
 
+    def _bound_names(self, e):
+        """number of distinct start / stop variables (by name) a comparison mentions: `stop > start` is the emptiness test even when one side
+        has been clamped to a constant"""
+        names = {n.lower() for n in P.c_ids(e)}
+        return len({('start' if 'start' in n else 'stop') for n in names if 'start' in n or 'stop' in n})
+
     def sides(self, f):
         syms = set(f.k)
         return bool(syms & self.start_syms), bool(syms & self.stop_syms)
@@ -1109,9 +1115,11 @@ class ClampEval:
             if res is not None:
                 return [(res, env)]
             s1, s2 = self.sides(d)
-            if s1 and s2:
+            if (s1 and s2) or ((s1 or s2) and self._bound_names(e) >= 2):
                 env_t, env_f = dict(env), dict(env)
                 env_t['#forked'] = env_f['#forked'] = True
+                env_t['#facts'] = env.get('#facts', ()) + ((e[1], d, True),)
+                env_f['#facts'] = env.get('#facts', ()) + ((e[1], d, False),)
                 return [(True, env_t), (False, env_f)]
             raise AnalysisError('C15-CLAMP: %s: the comparison %s is not decided on the class %s' % (self.fname, P.c_text(e), self.r.box))
         v = self.val(e, env)
@@ -1167,6 +1175,11 @@ class ClampEval:
                     env[name] = self.val(init, env) if init is not None else ('opaque', name)
             return envs
         if k == 'expr':
+            e0 = P.strip_wrappers(s[1])
+            if e0[0] == 'assign' and e0[1] == '=' and P.strip_wrappers(e0[3])[0] == 'tern':
+                # x = c ? a : b;   is   if (c) x = a; else x = b;   (the condition may be the emptiness test, which forks the path)
+                t = P.strip_wrappers(e0[3])
+                return self.run(('if', t[1], ('expr', ('assign', '=', e0[2], t[2])), ('expr', ('assign', '=', e0[2], t[3]))), envs)
             for env in envs:
                 self.effect(s[1], env)
             return envs
@@ -1204,6 +1217,18 @@ class ClampEval:
         if e[0] in ('un', 'post') and e[1] in ('++', '--') and e[2][0] == 'id':
             cur = env.get(e[2][1])
             env[e[2][1]] = cur + (1 if e[1] == '++' else -1) if isinstance(cur, Lin) else ('opaque', P.c_text(e))
+
+
+def _path_nonpositive(env, diff):
+    """does a start-vs-stop comparison taken on this path establish diff <= 0 ?"""
+    for op, d, truth in env.get('#facts', ()):
+        for dd, flip in ((d, False), (-d, True)):
+            if dd == diff:
+                o = {'<': '>', '>': '<', '<=': '>=', '>=': '<='}.get(op, op) if flip else op
+                # the fact is  diff <o> 0  with the given truth
+                if (o in ('<=', '<') and truth) or (o in ('>', '>=') and not truth and o == '>') or (o == '>=' and not truth) or (o == '==' and truth):
+                    return True
+    return False
 
 
 def clamp_problems(fname, typed_params, body):
@@ -1301,7 +1326,8 @@ def clamp_problems(fname, typed_params, body):
                         bad('stop:%s' % tl, '%s normalises stop to %r for %s; PySlice_AdjustIndices gives %r' % (fname, t2, case, rt))
                     if by_ptr and 'length' in ptrs:
                         l2 = e2.get('*' + ptrs['length'])
-                        if not (isinstance(l2, Lin) and l2 == t2 - s2):
+                        # an empty slice may be reported as length 0 instead of the (non-positive) difference: callers test `length <= 0`
+                        if not (isinstance(l2, Lin) and (l2 == t2 - s2 or (l2 == Lin(0) and (reg.decide('<=', t2 - s2) is True or _path_nonpositive(e2, t2 - s2))))):
                             bad('length', '%s stores %r as the new length instead of stop - start (%s)' % (fname, l2, case))
     return problems, cases
 
